@@ -155,4 +155,16 @@ def encoderCompress (input : List Nat) (inputSize outSize bufLen : Nat) (so : St
       else ok { ret := false, encodedSize := 0, bytes := [], kind := "too-small" }
     else ok { ret := true, encodedSize := encodedSize, bytes := so.bytes, kind := "stream" }
 
+/-- the parameters `encoder_compress` sets on its private encoder before the stream
+phase: `quality` (10 is run as 9 with the q9.5 hasher), `lgwin`, mode, `size_hint =
+input_size as u32`, and `large_window` when `lgwin > BROTLI_MAX_WINDOW_BITS`
+(literals 5, 6 of the function: `10`, `9`; the window limit is the generated constant) -/
+def oneshotParams (quality lgwin : Int) (inputSize : Nat) : Params :=
+  let l := BV.Gen.lits_encoder_compress
+  { quality := if quality = (lit l 5 : Int) then (lit l 6 : Int) else quality,
+    lgwin := lgwin, lgblock := 0,
+    largeWindow := decide (lgwin > (BV.Gen.BROTLI_MAX_DISTANCE_BITS : Int)),
+    catable := false, appendable := false, useDictionary := true, magicNumber := false,
+    sizeHint := inputSize % 2 ^ 32 }
+
 end BV.Stored
